@@ -138,6 +138,10 @@ def apply_steps(arr, view, steps):
             idx = st[1]
             arr = arr.take(idx, allow_fill=True)
             view = [None if i == -1 else view[i] for i in idx]
+        elif op == 'take_nofill':
+            idx = st[1]
+            arr = arr.take(idx, allow_fill=False) if st[2] == 'take' else arr[np.array(idx, dtype='int64')]
+            view = [view[i] for i in idx]
         elif op == 'mask':
             m = np.array(st[1], dtype=bool)
             arr = arr[m]
@@ -174,7 +178,15 @@ def random_steps(rng, n):
         elif op == 'take':
             k = rng.randint(0, n + 1)
             idx = [rng.choice(list(range(n)) + [-1]) for _ in range(k)]
-            steps.append(['take', idx])
+            if rng.random() < 0.5 and k > 0:
+                # take without fill / integer-array indexing: non-decreasing with repeats and gaps (what boolean
+                # masks, iloc ranges and "contiguous run" shortcuts are tempted by), possibly counted from the end
+                idx = sorted(rng.choice(range(n)) for _ in range(k))
+                if rng.random() < 0.3:
+                    idx = [i - n for i in idx]
+                steps.append(['take_nofill', idx, rng.choice(['take', 'getitem'])])
+            else:
+                steps.append(['take', idx])
             n = k
         elif op == 'mask':
             m = [rng.random() < 0.6 for _ in range(n)]
